@@ -47,3 +47,11 @@ Proof.
     cbn in *. destruct r; [intros _; exact H|discriminate].
   - rewrite nth_overflow by exact Hge. discriminate.
 Qed.
+
+(* extractIP, probed on every shape in which a peer address can reach the handler (typed addresses with and without an
+   IPv6 zone, string forms with / without port, brackets, zone): the key is a function of the peer alone, and
+   different peers get different keys - so "an address" of the theorems is the peer's IP, whatever its shape *)
+Definition addr_keys_by_peer_b (t : list (nat * nat)) : bool :=
+  forallb (fun a => forallb (fun b => Bool.eqb (Nat.eqb (fst a) (fst b)) (Nat.eqb (snd a) (snd b))) t) t.
+Lemma addr_keys_by_peer : addr_keys_by_peer_b addr_key_table = true /\ (12 <= length addr_key_table)%nat.
+Proof. split; vm_compute; [reflexivity|lia]. Qed.
